@@ -100,3 +100,36 @@ Inductive ill_formed (x : ext) (s : sys) (doc : list (string * json)) : Prop :=
       In e (s_groups s) -> instances_of doc e = Some l -> In (gid, JObj fields) l ->
       In r (e_roles e) -> r_max r = Some mx ->
       mx < Z.of_nat (List.length (role_members r fields)) -> ill_formed x s doc.
+
+(** the classes of [ill_formed] that are detected while the document is read (all but the
+    mismatched period, which is detected when the buffer is flushed) *)
+Inductive ill_formed_read (x : ext) (s : sys) (doc : list (string * json)) : Prop :=
+  | IR_unknown_entity k :
+      In k (map fst doc) -> k <> "axes"%string -> ~ In k (plurals s) -> ill_formed_read x s doc
+  | IR_unknown_variable e l id fields vn vals :
+      In e (entities s) -> instances_of doc e = Some l -> In (id, JObj fields) l ->
+      In (vn, vals) fields -> ~ In vn (map role_name (e_roles e)) ->
+      (forall v, find_var vn (s_vars s) = Some v -> v_entity v <> e_key e) ->
+      ill_formed_read x s doc
+  | IR_bad_value e l id vn t value v :
+      In e (entities s) -> instances_of doc e = Some l -> declares l id vn t value ->
+      ~ In vn (map role_name (e_roles e)) ->
+      find_var vn (s_vars s) = Some v -> value <> JNull ->
+      check_set_value x v value = Err EValue ->
+      ill_formed_read x s doc
+  | IR_unparsable_period e l id vn t value k :
+      In e (entities s) -> instances_of doc e = Some l -> declares l id vn t value ->
+      ~ In vn (map role_name (e_roles e)) ->
+      parse_key (tok x t) = Err k -> ill_formed_read x s doc
+  | IR_unknown_person e l gid r i pid persons :
+      In e (s_groups s) -> instances_of doc e = Some l -> declared_member e l gid r i pid ->
+      instances_of doc (s_person s) = Some persons -> ~ In pid (map fst persons) ->
+      ill_formed_read x s doc
+  | IR_duplicate_membership e l a b i a' b' i' pid :
+      In e (s_groups s) -> instances_of doc e = Some l ->
+      member_at e l a b i pid -> member_at e l a' b' i' pid ->
+      (a, b, i) <> (a', b', i') -> ill_formed_read x s doc
+  | IR_too_many e l gid fields r mx :
+      In e (s_groups s) -> instances_of doc e = Some l -> In (gid, JObj fields) l ->
+      In r (e_roles e) -> r_max r = Some mx ->
+      mx < Z.of_nat (List.length (role_members r fields)) -> ill_formed_read x s doc.
